@@ -88,6 +88,8 @@ def tie_cases(draw):
     if algo == "dsatuto":
         desc["objective"] = "min"
     params = {"stop_cycle": draw(st.integers(4, 12))} if algo != "dsatuto" else {}
+    if algo == "dsa":
+        params["variant"] = draw(st.sampled_from(["A", "B", "C", "C"]))
     if algo == "mgm2":
         params["threshold"] = draw(st.sampled_from([0.3, 0.5, 0.7]))
         params["favor"] = draw(st.sampled_from(["unilateral", "no", "coordinated"]))
